@@ -29,8 +29,8 @@ import (
 	authpb "istio.io/api/security/v1beta1"
 	typepb "istio.io/api/type/v1beta1"
 	"istio.io/istio/pilot/pkg/model"
-	"istio.io/istio/pilot/pkg/security/authz/builder"
-	"istio.io/istio/pilot/pkg/security/trustdomain"
+	"istio.io/istio/pilot/pkg/networking"
+	authzplugin "istio.io/istio/pilot/pkg/networking/plugin/authz"
 	"istio.io/istio/pkg/config"
 	"istio.io/istio/pkg/config/schema/gvk"
 	"istio.io/istio/pkg/config/validation"
@@ -163,7 +163,7 @@ func setOp(o *authpb.Operation, k string, v []string) {
 func (s *sut) valid() bool {
 	for _, p := range s.policies {
 		_, err := validation.ValidateAuthorizationPolicy(config.Config{
-			Meta: config.Meta{Name: p.Name, Namespace: p.Namespace, GroupVersionKind: gvk.AuthorizationPolicy},
+			Meta: config.Meta{Name: p.Name, Namespace: p.Namespace, GroupVersionKind: gvk.AuthorizationPolicy, Annotations: p.Annotations},
 			Spec: p.Spec,
 		})
 		if err != nil {
@@ -173,57 +173,56 @@ func (s *sut) valid() bool {
 	return true
 }
 
-// build calls the real selection + builder.
-func (s *sut) build(forTCP, useAuth bool) {
-	s.forTCP = forTCP
+// build goes through the REAL plugin entry point pilot/pkg/networking/plugin/authz.NewBuilder (trust domain
+// bundle from the mesh config, PolicyMatcherForProxy + ListAuthorizationPolicies, builder.New) for the
+// CUSTOM builder first and the ALLOW/DENY/AUDIT builder second, as the listener builder orders the filters.
+// kind: http | tcp | tcphttp (BuildTCPRulesAsHTTPFilter: TCP rules carried by HTTP filters).
+func (s *sut) build(kind string, useAuth bool) {
+	s.forTCP = kind != "http"
 	ap := &model.AuthorizationPolicies{NamespaceToPolicies: map[string][]model.AuthorizationPolicy{}, RootNamespace: s.rootNS}
 	for _, p := range s.policies {
 		ap.NamespaceToPolicies[p.Namespace] = append(ap.NamespaceToPolicies[p.Namespace], p)
 	}
-	sel := model.PolicyMatcherFor(s.wlNS, s.wlLabels, false).WithRootNamespace(s.rootNS)
-	res := ap.ListAuthorizationPolicies(sel)
-	mesh := &meshconfig.MeshConfig{}
+	mesh := &meshconfig.MeshConfig{TrustDomain: s.bundle[0], TrustDomainAliases: s.bundle[1:], RootNamespace: s.rootNS}
 	for _, name := range s.providers {
-		mesh.ExtensionProviders = append(mesh.ExtensionProviders, &meshconfig.MeshConfig_ExtensionProvider{
-			Name: name,
-			Provider: &meshconfig.MeshConfig_ExtensionProvider_EnvoyExtAuthzGrpc{
+		ep := &meshconfig.MeshConfig_ExtensionProvider{Name: strings.TrimPrefix(name, "http:")}
+		if strings.HasPrefix(name, "http:") {
+			ep.Provider = &meshconfig.MeshConfig_ExtensionProvider_EnvoyExtAuthzHttp{
+				EnvoyExtAuthzHttp: &meshconfig.MeshConfig_ExtensionProvider_EnvoyExternalAuthorizationHttpProvider{
+					Service: "foo/my-custom-ext-authz.foo.svc.cluster.local", Port: 9000,
+				},
+			}
+		} else {
+			ep.Provider = &meshconfig.MeshConfig_ExtensionProvider_EnvoyExtAuthzGrpc{
 				EnvoyExtAuthzGrpc: &meshconfig.MeshConfig_ExtensionProvider_EnvoyExternalAuthorizationGrpcProvider{
 					Service: "foo/my-custom-ext-authz.foo.svc.cluster.local", Port: 9000,
 				},
-			},
-		})
+			}
+		}
+		mesh.ExtensionProviders = append(mesh.ExtensionProviders, ep)
 	}
 	push := &model.PushContext{AuthzPolicies: ap, Mesh: mesh}
 	push.ServiceIndex.HostnameAndNamespace = map[host.Name]map[string]*model.Service{
 		"my-custom-ext-authz.foo.svc.cluster.local": {"foo": &model.Service{Hostname: "my-custom-ext-authz.foo.svc.cluster.local"}},
 	}
+	proxy := &model.Proxy{Type: model.SidecarProxy, ConfigNamespace: s.wlNS, Labels: s.wlLabels, Metadata: &model.NodeMetadata{}}
 	s.httpFilters, s.tcpFilters, s.built = nil, nil, nil
-	// the CUSTOM builder first (as the authz plugin orders the filters), then ALLOW/DENY/AUDIT
 	features.EnableMultipleCustomAuthzProviders = s.multi
-	if cb := builder.New(trustdomain.NewBundle(s.bundle[0], s.bundle[1:]), push, res, builder.Option{IsCustomBuilder: true, UseFilterState: !useAuth}); cb != nil {
-		if forTCP {
-			for _, f := range cb.BuildTCP() {
+	for _, at := range []authzplugin.ActionType{authzplugin.Custom, authzplugin.Local} {
+		b := authzplugin.NewBuilder(at, push, proxy, !useAuth)
+		switch kind {
+		case "tcp":
+			for _, f := range b.BuildTCP() {
 				s.built = append(s.built, fromTCP(f))
 			}
-		} else {
-			for _, f := range cb.BuildHTTP() {
+		case "tcphttp":
+			for _, f := range b.BuildTCPRulesAsHTTPFilter() {
 				s.built = append(s.built, fromHTTP(f))
 			}
-		}
-	}
-	b := builder.New(trustdomain.NewBundle(s.bundle[0], s.bundle[1:]), push, res, builder.Option{UseFilterState: !useAuth})
-	if b == nil {
-		return
-	}
-	if forTCP {
-		s.tcpFilters = b.BuildTCP()
-		for _, f := range s.tcpFilters {
-			s.built = append(s.built, fromTCP(f))
-		}
-	} else {
-		s.httpFilters = b.BuildHTTP()
-		for _, f := range s.httpFilters {
-			s.built = append(s.built, fromHTTP(f))
+		default:
+			for _, f := range b.BuildHTTP(networking.ListenerClassSidecarInbound) {
+				s.built = append(s.built, fromHTTP(f))
+			}
 		}
 	}
 }
@@ -256,8 +255,9 @@ func (s *sut) apply(f []string) (out string) {
 	case "pol":
 		p := model.AuthorizationPolicy{Namespace: wire.Dec(f[2]), Name: wire.Dec(f[3]), Annotations: map[string]string{},
 			Spec: &authpb.AuthorizationPolicy{Action: actionOf(f[1])}}
-		if f[4] == "1" {
-			p.Annotations["istio.io/dry-run"] = "true"
+		// "0" = no istio.io/dry-run annotation; anything else is the annotation's value
+		if f[4] != "0" {
+			p.Annotations["istio.io/dry-run"] = wire.Dec(f[4])
 		}
 		if prov := wire.Dec(f[5]); prov != "" {
 			p.Spec.ActionDetail = &authpb.AuthorizationPolicy_Provider{Provider: &authpb.AuthorizationPolicy_ExtensionProvider{Name: prov}}
@@ -300,7 +300,7 @@ func (s *sut) apply(f []string) (out string) {
 		r.When = append(r.When, &authpb.Condition{Key: wire.Dec(f[1]), Values: wire.DecList(f[2]), NotValues: wire.DecList(f[3])})
 		return "ok"
 	case "build":
-		s.build(f[1] == "tcp", f[2] == "1")
+		s.build(f[1], f[2] == "1")
 		return canonFilters(s.built)
 	case "req":
 		r := parseReq(f[1:])
